@@ -587,16 +587,52 @@ func runTimePredicates(c *core.Ctx) {
 			core.And(core.Lt("t", "startI"), core.Lt("startI", "endTime")))
 
 		f = c.Fn(metap + ".(*RetentionPolicyInfo).ExpiredShardGroups")
-		conds = ifConds(f)
-		c.Need(len(conds) == 2, "two conditions in ExpiredShardGroups")
-		check(f.Name+"/skip-deleted", f, conds[0], sgRoles, deleted)
-		check(f.Name+"/expired", f, conds[1], map[string]string{`^\$0$`: "t", `^\$recv\.Duration$`: "dur", `^const:0$`: "zero", `\.EndTime\+\$recv\.Duration$`: "endPlusDur"},
-			core.And(core.Not(core.EqT("dur", "zero")), core.Lt("endPlusDur", "t")))
+		// condition under which a group is appended to the result (independent of how the tests are arranged)
+		pathCheck := func(key string, g *core.FuncInfo, roles map[string]string, spec *core.BExpr) {
+			n++
+			isAppend := func(e *core.Event) bool {
+				if e.Kind != core.EvAssign {
+					return false
+				}
+				as, ok := e.Node.(*ast.AssignStmt)
+				if !ok || len(as.Rhs) != 1 {
+					return false
+				}
+				ce, ok := ast.Unparen(as.Rhs[0]).(*ast.CallExpr)
+				if !ok {
+					return false
+				}
+				b, ok := core.Callee(g.Info(), ce).(*types.Builtin)
+				return ok && b.Name() == "append"
+			}
+			if len(g.Graph().Find(isAppend)) == 0 {
+				c.Check("time-predicate", key, g.PosStr(), false, "undecided: no append of a selected group found in "+g.Name)
+				return
+			}
+			impl, err := pc.PathCondition(g, isAppend, nil)
+			if err != nil {
+				c.Check("time-predicate", key, g.PosStr(), false, "undecided: "+err.Error())
+				return
+			}
+			ren, err := impl.Rename(roles)
+			if err != nil {
+				c.Check("time-predicate", key, g.PosStr(), false, "undecided: "+err.Error()+" in "+impl.String())
+				return
+			}
+			diff, cnt, err := core.Equivalent(ren, spec)
+			if err != nil {
+				c.Check("time-predicate", key, g.PosStr(), false, "undecided: "+err.Error())
+				return
+			}
+			c.Counts["orderings_evaluated"] += cnt
+			c.Check("time-predicate", key, g.PosStr(), diff == "", "selection condition "+ren.String()+" differs from specification "+spec.String()+" at "+diff)
+		}
+		expRoles := map[string]string{`^\$0$`: "t", `^\$recv\.Duration$`: "dur", `^const:0$`: "zero", `\.EndTime\+\$recv\.Duration$`: "endPlusDur", `\.DeletedAt$`: "del"}
+		pathCheck(f.Name+"/expired-selection", f, expRoles,
+			core.And(core.And(core.Zero("del"), core.Not(core.EqT("dur", "zero"))), core.Lt("endPlusDur", "t")))
 		f = c.Fn(metap + ".(*RetentionPolicyInfo).DeletedShardGroups")
-		conds = ifConds(f)
-		c.Need(len(conds) == 1, "condition of DeletedShardGroups")
-		check(f.Name+"/deleted", f, conds[0], sgRoles, deleted)
-		c.Floor("time predicates", n, 12)
+		pathCheck(f.Name+"/deleted-selection", f, sgRoles, deleted)
+		c.Floor("time predicates", n, 11)
 	}
 }
 
